@@ -533,7 +533,8 @@ func (ex *Exec) havocEffects(e *Effects) {
 }
 
 type loopSpec struct {
-	alias  string // identifier the contract's header ranges over where the code now has an expression
+	node   ast.Node // the loop statement
+	alias  string   // identifier the contract's header ranges over where the code now has an expression
 	ord    int
 	lc     *LoopContract
 	idx    Term
@@ -544,6 +545,8 @@ func (ex *Exec) loopInvariants(ls *loopSpec, phase string, pos string) {
 	if ls.lc == nil {
 		return
 	}
+	ex.guessLoop = ls.node
+	defer func() { ex.guessLoop = nil }()
 	for k, inv := range ls.lc.Inv {
 		env := ex.envHere()
 		env.loopIdx, env.hasIdx = ls.idx, ls.hasIdx
@@ -565,6 +568,8 @@ func (ex *Exec) assumeInvariants(ls *loopSpec) {
 	if ls.lc == nil {
 		return
 	}
+	ex.guessLoop = ls.node
+	defer func() { ex.guessLoop = nil }()
 	for _, inv := range ls.lc.Inv {
 		env := ex.envHere()
 		env.loopIdx, env.hasIdx = ls.idx, ls.hasIdx
@@ -579,7 +584,7 @@ func (ex *Exec) assumeInvariants(ls *loopSpec) {
 
 func (ex *Exec) beginLoop(node ast.Node, header string) *loopSpec {
 	ex.loopOrd++
-	ls := &loopSpec{ord: ex.loopOrd}
+	ls := &loopSpec{ord: ex.loopOrd, node: node}
 	c := ex.F.Contract
 	if c == nil || len(c.Loops) == 0 {
 		return ls
